@@ -69,8 +69,10 @@ def take_case(ctx: Ctx, cfg: Dict[str, Any], suite: str = "fsize_limit_take"):
         ctx.count(f"fsize.take.{mode}." + r["outcome"].split(":")[0])
         if r["outcome"] == "returned":
             if not r["metadata"] or r.get("restore") != "equal":
-                ctx.fail("short-write-committed", f"{mode} take returned normally under a file-size limit of {cfg['limit']} bytes, yet the "
-                         f"snapshot is not a complete one (metadata={r['metadata']}, restore={r.get('restore')})", inp, r, suite=suite)
+                what = (f"a file-size limit of {cfg['limit']} bytes" if cfg.get("limit") else f"an injected {cfg.get('fault')} write failure")
+                ctx.fail("short-write-committed" if cfg.get("limit") else "failed-write-not-reported",
+                         f"{mode} take returned normally under {what}, yet the snapshot is not a complete one "
+                         f"(metadata={r['metadata']}, restore={r.get('restore')})", inp, r, suite=suite)
         elif r["metadata"]:
             ctx.fail("committed-after-failed-write", f"{mode} take raised ({r['outcome']}) but metadata was committed "
                      f"(restore: {r.get('restore')})", inp, r, suite=suite)
@@ -91,3 +93,9 @@ def rand_take_cfg(rng) -> Dict[str, Any]:
     elems = [big] + [rng.randint(1, 50) for _ in range(rng.randint(0, 2))]
     rng.shuffle(elems)
     return {"limit": limit, "elems": elems, "nobatch": rng.random() < 0.5}
+
+
+def rand_fault_cfg(rng) -> Dict[str, Any]:
+    """no size limit; the real plugin's write raises for the metadata object or for the payload objects"""
+    return {"limit": 0, "fault": rng.choice(["metadata", "metadata", "payload"]), "elems": [rng.randint(1, 200) for _ in range(rng.randint(1, 3))],
+            "nobatch": rng.random() < 0.5}
